@@ -82,6 +82,16 @@ CLAIMED['C03'] = dict(
     technique='TLA+ heap model + TLC; spec->code replay of generated object graphs and API histories',
     design_ref='3/C03')
 
+CLAIMED['C16'] = dict(
+    text=('Traverse.tla transcribes flatten_dict (keep_empty_nodes, is_leaf cut, whole-input-empty case) and unflatten_dict and TLC checks '
+          'the inverse laws (exact with keep_empty_nodes, up to pruning of empty sub-dicts otherwise, sub-dicts below an is_leaf cut travel '
+          'intact) and visit-once on every nested dict over 2 keys up to depth 3 (plus the empty string as a key), and the State set laws '
+          '(later wins per path, a-b keeps exactly the paths absent from b, 3-way merges) on all pairs / triples over 3 paths; every case is '
+          'replayed on traverse_util, nnx.traversals (tuple and separator keys, dict / FrozenDict), path_aware_map and nnx.State operations, '
+          'conversions (flat / pure dict, int keys) and split/merge.'),
+    technique='TLA+ transcription + TLC exhaustive enumeration; spec->code replay of every case',
+    design_ref='3/C16')
+
 NOT_YET = 'check not built yet in this round (planned, see DESIGN.md section 3); not claimed until its specification is bound to the code'
 ALL = ['C%02d' % i for i in range(1, 21)]
 
